@@ -806,6 +806,9 @@ func (Area) Gen(r *rand.Rand, tier string, emit func(string)) {
 	for _, t := range []string{"NoSlash", "/p.S1/{", "/p.S1/M 1"} {
 		emit("tmpl " + hx(t))
 	}
+	for _, t := range FlapTemplates() {
+		emit("tmpl " + hx(t))
+	}
 
 	base := &Line{Pool: TargetNames, P: pProbes(), G: gProbes()}
 	// exhaustive short histories over a fixed op alphabet (4-description pool)
@@ -834,6 +837,15 @@ func (Area) Gen(r *rand.Rand, tier string, emit func(string)) {
 		}
 	}
 	rec(nil)
+
+	// flap histories: >= 3 descriptions per target, HTTP methods appearing / disappearing / reappearing (flap.go)
+	nf := 150
+	if tier == "thorough" {
+		nf = 3000
+	}
+	for i := 0; i < nf; i++ {
+		emit(genFlapLine(r).String())
+	}
 
 	n, maxOps := 300, 12
 	if tier == "thorough" {
